@@ -765,10 +765,11 @@ def _test_traj():
 
 @st.composite
 def traj_case(draw):
-    which = draw(st.sampled_from(["phi", "psi", "chi", "chi", "all"]))
-    return {"which": which, "buffer": draw(st.sampled_from([0, 1, 5, 7.5, 15, 15, 30, 45, 59, 90, 95, 99, 100])),
+    which = draw(st.sampled_from(["phi", "psi", "chi", "chi", "all", "all"]))
+    # (fractional widths too: the buffer is a number of degrees, not a count)
+    return {"which": which, "buffer": draw(st.sampled_from([0, 0.5, 1, 5, 7.5, 7.5, 12.3, 15, 15, 30, 33.3, 44.9, 45, 59, 90, 95, 99, 100])),
             "start": draw(st.integers(0, 4000)), "stride": draw(st.sampled_from([1, 1, 3, 17, 50])),
-            "n": draw(st.integers(2, 40)), "kw": draw(st.booleans())}
+            "n": draw(st.one_of(st.integers(2, 40), st.integers(100, 400))), "kw": draw(st.booleans())}
 
 
 def run_traj(case):
@@ -802,6 +803,10 @@ def run_traj(case):
     changed = 0
     for j, (fam, ang, bounds) in enumerate(cols):
         vals = [float(a) for a in ang]
+        if min_gate_dist_all(vals, gate_values(bounds, float(buf))) < 1e-4:
+            # an angle sits on a gate (the library clamps angles above 359.5 to exactly 359.5, which IS the gate for a
+            # buffer of 0.5): the statement does not say which side a gate value belongs to
+            continue
         ref = ref_machine(vals, bounds, float(buf))
         plain = ref_machine(vals, bounds, 0.0)
         changed += ref != plain
@@ -883,7 +888,7 @@ CLAUSES = [
     Clause("transition_stats_times", stats_case(), run_transition_stats, quick=300, thorough=5000),
     Clause("reference_machine_very_long", long_series_case(), run_long_series, quick=24, thorough=400,
            doc="16383..70000 frames (seeded walk lingering at the basin boundaries) vs the reference machine"),
-    Clause("trajectory_entry_points", traj_case(), run_traj, quick=120, thorough=2000,
+    Clause("trajectory_entry_points", traj_case(), run_traj, quick=200, thorough=3000,
            doc="phi/psi/chi/all_rotamers on slices of the repository's test trajectory vs the reference machine per dihedral"),
     Clause("rotamers_then_transitions", history_case(), run_pipeline, quick=300, thorough=5000),
 ]
